@@ -2,7 +2,7 @@
 import os
 import re
 
-from engine import cc, cfg, lib
+from engine import facts, cc, cfg, lib
 from engine.auto import cond_shape
 from engine.facts import erase, short_loc, CACHE
 from engine.lib import qe
@@ -480,7 +480,7 @@ int main() {}
 
 
 def c18e(ctx):
-    path = os.path.join(CACHE, "gen", "c18_types.cpp")
+    path = os.path.join(facts.gen_dir(), "c18_types.cpp")
     os.makedirs(os.path.dirname(path), exist_ok=True)
     with open(path, "w") as fh:
         fh.write(WITNESS)
